@@ -13,8 +13,10 @@ import PyaModel.Core.Annot
   `_signature_from_function`: defaults aligned to the *tail* of the positional parameters by index,
   keyword-only defaults by name). Validated against the real `inspect` (stream `inspect`).
 * `Supported` — the fragment of the annotation vocabulary the theorems quantify over.
-* Exception classes (findings) `D13_starUnpack`, `D13_finalQuoted`, `D13_dunderPosOnly` and the
-  representation-only classes `R13_typingDedup`, `R13_unannotated`.
+* Exception class (finding) `D13_starUnpack` and the representation-only classes
+  `R13_typingDedup`, `R13_unannotated`. (The former classes `finalQuoted` and `dunderPosOnly` were
+  repaired in /repo by d560eeb and 96446dc; model and theorems now cover them, their witnesses are
+  regression theorems in Props/C13.lean.)
 -/
 namespace Pya.C13
 
@@ -264,37 +266,10 @@ def AnnExpr.hasStarL : List AnnExpr → Bool
   | e :: es => e.hasStar || AnnExpr.hasStarL es
 end
 
-mutual
-/-- a `Final[...]` / `ClassVar[...]` outside string constants -/
-def AnnExpr.finalU : AnnExpr → Bool
-  | .final _ => true
-  | .classVar _ => true
-  | .gen _ _ args => AnnExpr.finalUL args
-  | .tup _ ms => AnnExpr.finalUL ms
-  | .tupV _ e => e.finalU
-  | .unpack e => e.finalU
-  | .star e => e.finalU
-  | .typ _ e => e.finalU
-  | .ann e _ => e.finalU
-  | .opt e => e.finalU
-  | .union es => AnnExpr.finalUL es
-  | .bor a b => a.finalU || b.finalU
-  | _ => false
-def AnnExpr.finalUL : List AnnExpr → Bool
-  | [] => false
-  | e :: es => e.finalU || AnnExpr.finalUL es
-end
-
 /-- **D13.starUnpack**: the expression contains `*tuple[...]` (PEP 646 star syntax). `_Visitor` has
 no `visit_Starred` (AST / string route raises), the runtime route ignores `__unpacked__` (nested
 tuple), the in-source route falls back to `tuple[Any]`. -/
 def D13_starUnpack (e : AnnExpr) : Bool := e.hasStar
-
-/-- **D13.finalQuoted**: the expression contains `Final[...]` / `ClassVar[...]` outside nested
-strings: `_type_from_subscripted_value` has no branch for them, so the AST route — which is the one
-taken when the annotation is quoted — yields `Any[error]`, while the runtime route strips the
-qualifier (annotations.py:1212). -/
-def D13_finalQuoted (e : AnnExpr) : Bool := e.finalU
 
 mutual
 /-- structural equality of objects (decides `=`, see `Proofs/C13.lean : Obj.eqb_eq`) -/
@@ -465,12 +440,6 @@ def DefArgs.allArgs (d : DefArgs) : List PArg :=
 keyword-only default slot per keyword-only parameter -/
 def DefArgs.WF (d : DefArgs) : Bool :=
   d.defaults.length ≤ d.posonly.length + d.args.length && d.kwDefaults.length == d.kwonly.length
-
-/-- **D13.dunderPosOnly**: a positional-or-keyword parameter is named `__x`. `from_signature`
-applies the PEP 484 convention (the parameter *and every parameter before it* become
-positional-only, arg_spec.py:497), `compute_parameters` does not. -/
-def D13_dunderPosOnly (d : DefArgs) : Bool :=
-  (inspectOf d).params.any fun p => p.kind == .posOrKw && isDunderName p.name
 
 /-- **R13.unannotated** (representation only): an unannotated parameter that has a default, or is
 `*args` / `**kwargs`: the def route records `Any | <default>` / `tuple[Any, ...]` /
